@@ -402,6 +402,50 @@ class Generator:
                 deref_bodies[l['body'][0] + 1] = f' let {var} = {var}__n; {var}__n += 1;'
                 add_edit(l['body'][1], l['body'][1], ' }', 'RFORC')
                 applied.append(f'RFORC loop#{k}: for {var} in {a_txt}..{b_txt} -> while with leading increment')
+            elif kind == 'RFORI':
+                # inclusive ranges, which the installed Verus does not take in `for` (and `.rev()` on them):
+                #   `for i in A..=B { BODY }`        -> { let mut i__n = A; let i__end = B; let mut i__go = i__n <= i__end;
+                #                                         while i__go INV { let i = i__n; if i__n < i__end { i__n += 1; } else { i__go = false; } BODY } }
+                #   `for i in (A..=B).rev() { BODY }` -> { let i__lo = A; let mut i__n = B; let mut i__go = i__lo <= i__n;
+                #                                         while i__go INV { let i = i__n; if i__n > i__lo { i__n -= 1; } else { i__go = false; } BODY } }
+                # A and B are evaluated once, A first; the step comes before BODY, so `continue` and `break` keep their meaning; no step is
+                # taken past the last index (no overflow / underflow at the ends of the type).
+                k = int(rw[1])
+                fl = [l for l in fn['loops'] if inside(l['span'], span)]
+                if k >= len(fl) or fl[k]['kind'] != 'for':
+                    raise GenError(f'lost-anchor: for-loop #{k} in {u.fnpath}')
+                l = fl[k]
+                var = src[l['pat'][0]:l['pat'][1]].decode().strip()
+                itxt = src[l['iter'][0]:l['iter'][1]].decode().strip()
+                rev = False
+                if itxt.endswith('.rev()'):
+                    rev = True
+                    itxt = itxt[:-len('.rev()')].strip()
+                    if not (itxt.startswith('(') and itxt.endswith(')')):
+                        raise GenError(f'unsupported: RFORI needs `(A..=B).rev()` in {u.fnpath}')
+                    itxt = itxt[1:-1].strip()
+                depth, cut = 0, -1
+                for pos, ch in enumerate(itxt):
+                    if ch in '([{':
+                        depth += 1
+                    elif ch in ')]}':
+                        depth -= 1
+                    elif depth == 0 and itxt.startswith('..=', pos):
+                        cut = pos
+                        break
+                if cut < 0 or not re.fullmatch(r'\w+', var):
+                    raise GenError(f'unsupported: RFORI needs `for <ident> in A..=B` in {u.fnpath}')
+                a_txt, b_txt = itxt[:cut].strip(), itxt[cut + 3:].strip()
+                if src[l['body'][0]:l['body'][0] + 1] != b'{':
+                    raise GenError(f'unsupported: for-loop body of {u.fnpath} is not a block')
+                if rev:
+                    add_edit(l['span'][0], l['body'][0], f'{{ let {var}__lo = {a_txt}; let mut {var}__n = {b_txt}; let mut {var}__go = {var}__lo <= {var}__n; while {var}__go ', 'RFORI')
+                    deref_bodies[l['body'][0] + 1] = f' let {var} = {var}__n; if {var}__n > {var}__lo {{ {var}__n -= 1; }} else {{ {var}__go = false; }}'
+                else:
+                    add_edit(l['span'][0], l['body'][0], f'{{ let mut {var}__n = {a_txt}; let {var}__end = {b_txt}; let mut {var}__go = {var}__n <= {var}__end; while {var}__go ', 'RFORI')
+                    deref_bodies[l['body'][0] + 1] = f' let {var} = {var}__n; if {var}__n < {var}__end {{ {var}__n += 1; }} else {{ {var}__go = false; }}'
+                add_edit(l['body'][1], l['body'][1], ' }', 'RFORI')
+                applied.append(f'RFORI loop#{k}: for {var} in {"(" if rev else ""}{a_txt}..={b_txt}{").rev()" if rev else ""} -> while with the step before the body')
             elif kind == 'RFORS':
                 # `for x in E { BODY }` over a slice / &Vec  ->  `{ let mut x__n: usize = 0; while x__n < (E).len() INV { let x = &(E)[x__n]; x__n += 1; BODY } }`
                 # (items of `for x in <slice>` are references to the elements in order; the increment comes first, so a `continue`
